@@ -106,6 +106,10 @@ type Script struct {
 	Shuffle bool     `json:"shuffle,omitempty"` // ShuffleReplicas
 	API     string   `json:"api,omitempty"`     // "" = Ingestor.Search, "search" / "complex" = proxyapi handler
 	Orig    []ID     `json:"orig,omitempty"`    // kind docs: the IDs passed to Ingestor.Documents
+	// kind seq: searches run one after the other on ONE Ingestor (same topology, behaviours change);
+	// At = the search a case / violation is about
+	Steps []*Script `json:"steps,omitempty"`
+	At    int       `json:"at,omitempty"`
 	// kind fetch: hosts (only FetchKO/Ops used) and the requested (ID, host) list
 	Hosts []Host  `json:"hosts,omitempty"`
 	Req   []ReqID `json:"req,omitempty"`
@@ -141,7 +145,24 @@ type fakeClient struct {
 	r   *run
 }
 
-func (f *fakeClient) Search(ctx context.Context, in *storeapi.SearchRequest, opts ...grpc.CallOption) (*storeapi.SearchResponse, error) {
+// in a sequence the behaviours and the log of the CURRENT search travel in the context, so that a
+// straggling shard goroutine of an earlier search (searchStores returns early on wants-old /
+// too-many-fractions) can neither read nor pollute a later search
+type stepEnv struct {
+	hosts []*Host
+	r     *run
+}
+type stepKey struct{}
+
+func (f *fakeClient) env(ctx context.Context) *fakeClient {
+	if e, ok := ctx.Value(stepKey{}).(*stepEnv); ok {
+		return &fakeClient{idx: f.idx, h: e.hosts[f.idx], r: e.r}
+	}
+	return f
+}
+
+func (f0 *fakeClient) Search(ctx context.Context, in *storeapi.SearchRequest, opts ...grpc.CallOption) (*storeapi.SearchResponse, error) {
+	f := f0.env(ctx)
 	f.r.mu.Lock()
 	f.r.searchSeq = append(f.r.searchSeq, f.idx)
 	f.r.mu.Unlock()
@@ -228,7 +249,8 @@ func (s *fakeStream) Recv() (*storeapi.BinaryData, error) {
 	return &storeapi.BinaryData{Data: block}, nil
 }
 
-func (f *fakeClient) Fetch(ctx context.Context, in *storeapi.FetchRequest, opts ...grpc.CallOption) (storeapi.StoreApi_FetchClient, error) {
+func (f0 *fakeClient) Fetch(ctx context.Context, in *storeapi.FetchRequest, opts ...grpc.CallOption) (storeapi.StoreApi_FetchClient, error) {
+	f := f0.env(ctx)
 	f.r.mu.Lock()
 	defer f.r.mu.Unlock()
 	for _, s := range in.Ids {
@@ -341,6 +363,7 @@ type gotDoc struct {
 func hostName(i int) string { return fmt.Sprintf("h%02d", i) }
 
 type built struct {
+	srv    seqproxyapi.SeqProxyApiServer
 	si     *search.Ingestor
 	r      *run
 	hostOf map[uint64]int // source -> host index
@@ -383,6 +406,7 @@ func build(sc *Script) *built {
 	cfg.WriteStores = &stores.Stores{Shards: [][]string{}}
 	si := search.NewIngestor(cfg, clients)
 	b := &built{si: si, r: r, hostOf: map[uint64]int{}, srcOf: map[int]uint64{}, nhosts: n}
+	b.srv = proxyapi.VerifC16NewGrpcV1(si, 30*time.Second)
 	for name, s := range si.VerifC16SourceByClient() {
 		i, _ := strconv.Atoi(name[1:])
 		b.hostOf[s] = i
@@ -415,8 +439,22 @@ func pull(o *outcome, b *built, it search.DocsIterator, n int) {
 	}
 }
 
-func execute(sc *Script) (o *outcome) {
-	b := build(sc)
+func execute(sc *Script) []*outcome {
+	if sc.Kind == "seq" {
+		b := build(sc.Steps[0])
+		var outs []*outcome
+		for _, st := range sc.Steps {
+			r := &run{streams: map[int][]sentDoc{}, fetchIDs: map[ID]int{}}
+			b.r = r
+			ctx := context.WithValue(context.Background(), stepKey{}, &stepEnv{hosts: allHosts(st), r: r})
+			outs = append(outs, runOne(ctx, st, b))
+		}
+		return outs
+	}
+	return []*outcome{runOne(context.Background(), sc, build(sc))}
+}
+
+func runOne(ctx context.Context, sc *Script, b *built) (o *outcome) {
 	o = &outcome{r: b.r}
 	done := make(chan struct{})
 	go func() {
@@ -426,7 +464,6 @@ func execute(sc *Script) (o *outcome) {
 				o.panicked = fmt.Sprint(p)
 			}
 		}()
-		ctx := context.Background()
 		if sc.Kind == "fetch" {
 			var ids []seq.IDSource
 			for _, q := range sc.Req {
@@ -458,7 +495,7 @@ func execute(sc *Script) (o *outcome) {
 			return
 		}
 		if sc.API != "" {
-			executeAPI(sc, b, o)
+			executeAPI(ctx, sc, b, o)
 			return
 		}
 		sr := &search.SearchRequest{Q: []byte("message:x"), Offset: sc.Off, Size: sc.Size, From: 0, To: 1 << 40,
@@ -616,8 +653,8 @@ func (x *Extra) coq() string {
 }
 
 // executeAPI drives the real proxyapi Search / ComplexSearch handler on top of the ingestor
-func executeAPI(sc *Script, b *built, o *outcome) {
-	srv := proxyapi.VerifC16NewGrpcV1(b.si, 30*time.Second)
+func executeAPI(ctx context.Context, sc *Script, b *built, o *outcome) {
+	srv := b.srv
 	q := &seqproxyapi.SearchQuery{Query: "message:x", From: timestamppb.New(time.UnixMilli(0)), To: timestamppb.New(time.UnixMilli(1 << 40))}
 	order := seqproxyapi.Order_ORDER_DESC
 	if sc.Rev {
@@ -633,7 +670,7 @@ func executeAPI(sc *Script, b *built, o *outcome) {
 	)
 	if sc.API == "search" {
 		var resp *seqproxyapi.SearchResponse
-		resp, err = srv.Search(context.Background(), &seqproxyapi.SearchRequest{Query: q, Size: int64(sc.Size), Offset: int64(sc.Off), WithTotal: true, Order: order})
+		resp, err = srv.Search(ctx, &seqproxyapi.SearchRequest{Query: q, Size: int64(sc.Size), Offset: int64(sc.Off), WithTotal: true, Order: order})
 		if resp != nil {
 			perr, flag, total, docs = resp.Error, resp.PartialResponse, resp.Total, resp.Docs
 		}
@@ -643,7 +680,7 @@ func executeAPI(sc *Script, b *built, o *outcome) {
 			req.Hist = &seqproxyapi.HistQuery{Interval: fmt.Sprintf("%dms", sc.Itv)}
 		}
 		var resp *seqproxyapi.ComplexSearchResponse
-		resp, err = srv.ComplexSearch(context.Background(), req)
+		resp, err = srv.ComplexSearch(ctx, req)
 		if resp != nil {
 			perr, flag, total, docs, hist = resp.Error, resp.PartialResponse, resp.Total, resp.Docs, resp.Hist
 		}
@@ -859,21 +896,23 @@ func implJSON(o *outcome) map[string]any {
 }
 
 // record turns one executed script into cases / direct violations
-func record(w *casefile.Writer, sc *Script, o *outcome) {
+// record turns one executed search / fetch into cases; input = what is stored for the replay (the
+// script itself, or the whole sequence with the position of this search)
+func record(w *casefile.Writer, sc *Script, o *outcome, input any, suffix string) {
 	if o.hung {
-		w.Violate("hang:"+sc.Kind, "the proxy read path did not return within 20 s", sc)
+		w.Violate("hang:"+sc.Kind, "the proxy read path did not return within 20 s", input)
 		return
 	}
 	if o.panicked != "" {
-		w.Violate("panic:"+sc.Kind, "the proxy read path panics: "+o.panicked, sc)
+		w.Violate("panic:"+sc.Kind, "the proxy read path panics: "+o.panicked, input)
 		return
 	}
 	if o.weirdErr != "" {
-		w.Violate("unclassified:"+sc.Kind, o.weirdErr, sc)
+		w.Violate("unclassified:"+sc.Kind, o.weirdErr, input)
 		return
 	}
 	if o.unmapped {
-		w.Violate("unknown-source:"+sc.Kind, "a returned ID or document carries a source number no store has", sc)
+		w.Violate("unknown-source:"+sc.Kind, "a returned ID or document carries a source number no store has", input)
 		return
 	}
 	streamsMisbehave := false
@@ -889,7 +928,7 @@ func record(w *casefile.Writer, sc *Script, o *outcome) {
 		if o.errKind == "fetch" {
 			// every Fetch call failed: allowed only if there was no working store among the requested ones
 			if len(o.r.fetchSeq) > 0 || len(sc.Req) == 0 {
-				w.Violate("fetch-error-with-live-store", "FetchDocsStream failed although a store accepted the fetch", sc)
+				w.Violate("fetch-error-with-live-store", "FetchDocsStream failed although a store accepted the fetch", input)
 			}
 			w.Count("fetch:all-calls-failed")
 			w.Evals(1)
@@ -900,14 +939,14 @@ func record(w *casefile.Writer, sc *Script, o *outcome) {
 			cl = "fetch-direct-misbehaving"
 		}
 		w.Add(fmt.Sprintf("CFetch %s %s (FOk %s)", reqCoq(sc.Req), streamsCoq(o.r), docsCoq(o.docs)),
-			cl, len(sc.Req) >= 2 && len(o.r.fetchSeq) >= 1, sc, implJSON(o))
+			cl, len(sc.Req) >= 2 && len(o.r.fetchSeq) >= 1, input, implJSON(o))
 		return
 	}
 	if sc.Kind == "docs" {
 		w.Count("docs:hosts=" + strconv.Itoa(len(sc.Hosts)))
 		if o.errKind == "fetch" {
 			if len(o.r.fetchSeq) > 0 || len(sc.Orig) == 0 {
-				w.Violate("fetch-error-with-live-store", "Documents failed although a store accepted the fetch", sc)
+				w.Violate("fetch-error-with-live-store", "Documents failed although a store accepted the fetch", input)
 			}
 			w.Count("docs:all-calls-failed")
 			w.Evals(1)
@@ -922,7 +961,7 @@ func record(w *casefile.Writer, sc *Script, o *outcome) {
 			srcs = append(srcs, i)
 		}
 		w.Add(fmt.Sprintf("CDocs %s %s %s (FOk %s)", idsCoq(sc.Orig), natsCoq(srcs), streamsCoq(o.r), docsCoq(o.docs)),
-			cl, len(sc.Orig) >= 2 && len(sc.Hosts) >= 2, sc, implJSON(o))
+			cl, len(sc.Orig) >= 2 && len(sc.Hosts) >= 2, input, implJSON(o))
 		return
 	}
 	// search
@@ -930,7 +969,7 @@ func record(w *casefile.Writer, sc *Script, o *outcome) {
 		seen := map[int]bool{}
 		for _, h := range o.r.searchSeq {
 			if seen[h] {
-				w.Violate("replica-called-twice", "a replica was asked twice in one search", sc)
+				w.Violate("replica-called-twice", "a replica was asked twice in one search", input)
 				return
 			}
 			seen[h] = true
@@ -990,6 +1029,7 @@ func record(w *casefile.Writer, sc *Script, o *outcome) {
 		cl += "-cold"
 	}
 	w.Count(fmt.Sprintf("topology:hot=%dx%d,cold=%d", len(sc.Hot)+len(sc.HotRead), maxRepl(sc), len(sc.Cold)))
+	cl += suffix
 	ctor := "CSearch"
 	if sc.API != "" {
 		ctor = "CApi"
@@ -1002,14 +1042,15 @@ func record(w *casefile.Writer, sc *Script, o *outcome) {
 	}
 	w.Add(fmt.Sprintf("%s %s %s %s %d %d %s %d%%N %d %s %s", ctor, hot, hotread, cold, sc.Off, sc.Size, casefile.Bool(sc.Rev),
 		sc.Itv, sc.NAggs, natsCoq(ffail), impl),
-		cl, hasFailure(sc), sc, implJSON(o))
+		cl, hasFailure(sc), input, implJSON(o))
 	if o.fetched {
 		fc := "fetch-in-search"
 		if streamsMisbehave {
 			fc = "fetch-in-search-misbehaving"
 		}
+		fc += suffix
 		w.Add(fmt.Sprintf("CFetch %s %s (FOk %s)", reqCoq(o.ids), streamsCoq(o.r), docsCoq(o.docs)),
-			fc, len(o.ids) >= 2, sc, implJSON(o))
+			fc, len(o.ids) >= 2, input, implJSON(o))
 	}
 }
 
@@ -1270,6 +1311,69 @@ func genExtras(r *rng.R, sc *Script) {
 	}
 }
 
+// a sequence of 2-5 searches on one Ingestor: the topology stays, the replicas' behaviours change
+// from search to search (rolling restarts: a replica failing in one search answers in the next and
+// the other way round, at every position)
+func genSeq(r *rng.R) *Script {
+	base := genSearch(r)
+	sq := &Script{Kind: "seq", Shuffle: r.Chance(1, 3)}
+	base.Shuffle = sq.Shuffle
+	if r.Chance(1, 2) {
+		base.API = ""
+	}
+	n := r.Range(2, 5)
+	prev := base
+	down := r.Intn(3) // position of the replica that is down, moves from search to search
+	for k := 0; k < n; k++ {
+		st := prev
+		if k > 0 {
+			b, _ := json.Marshal(prev)
+			st = &Script{}
+			json.Unmarshal(b, st)
+			st.Off, st.Size = r.Range(0, 2), r.Range(1, 8)
+			mode := r.Intn(3)
+			for _, tier := range [][][]Host{st.Hot, st.HotRead, st.Cold} {
+				for si := range tier {
+					for ri := range tier[si] {
+						h := &tier[si][ri]
+						switch {
+						case mode == 0: // rolling restart: exactly the replica at position `down` fails
+							h.Beh = "ok"
+							if ri == down%len(tier[si]) {
+								h.Beh = "err"
+							}
+						case mode == 1 && (h.Beh == "ok" || h.Beh == "err"): // flip
+							if r.Chance(1, 2) {
+								if h.Beh == "ok" {
+									h.Beh = "err"
+								} else {
+									h.Beh = "ok"
+								}
+							}
+						case mode == 2 && r.Chance(1, 3):
+							h.Beh = rng.Pick(r, behs)
+						}
+						h.IDs, h.X = nil, nil
+						if h.Beh == "ok" {
+							h.IDs = genIDs(r, si, false, st.Off+st.Size, st.Rev)
+						}
+						h.FetchKO = false
+						h.Ops = genOps(r)
+					}
+				}
+			}
+			st.Itv, st.NAggs = 0, 0
+			if r.Chance(1, 3) {
+				genExtras(r, st)
+			}
+			down++
+		}
+		sq.Steps = append(sq.Steps, st)
+		prev = st
+	}
+	return sq
+}
+
 // Ingestor.Documents: every store is asked for every ID
 func genDocs(r *rng.R) *Script {
 	sc := &Script{Kind: "docs"}
@@ -1361,7 +1465,7 @@ func genExhaustive() []*Script {
 // ---------------------------------------------------------------- main
 
 func runAll(w *casefile.Writer, scripts []*Script) {
-	outs := make([]*outcome, len(scripts))
+	outs := make([][]*outcome, len(scripts))
 	var wg sync.WaitGroup
 	ch := make(chan int)
 	for k := 0; k < 6; k++ {
@@ -1379,7 +1483,20 @@ func runAll(w *casefile.Writer, scripts []*Script) {
 	close(ch)
 	wg.Wait()
 	for i, sc := range scripts {
-		record(w, sc, outs[i])
+		recordAll(w, sc, outs[i])
+	}
+}
+
+func recordAll(w *casefile.Writer, sc *Script, outs []*outcome) {
+	if sc.Kind != "seq" {
+		record(w, sc, outs[0], sc, "")
+		return
+	}
+	w.Count(fmt.Sprintf("sequence:searches=%d", len(sc.Steps)))
+	for k, st := range sc.Steps {
+		in := *sc
+		in.At = k
+		record(w, st, outs[k], &in, "-seq")
 	}
 }
 
@@ -1419,15 +1536,18 @@ func main() {
 		return
 	}
 	r := rng.New(*seed)
-	nSearch, nFetch, nDocs := 4000, 2500, 1500
+	nSearch, nSeq, nFetch, nDocs := 2500, 1000, 2000, 1200
 	if *tier == "thorough" {
-		nSearch, nFetch, nDocs = 60000, 30000, 15000
+		nSearch, nSeq, nFetch, nDocs = 40000, 15000, 25000, 12000
 	}
 	scripts := genExhaustive()
 	w.Exhaust = true
 	w.Extra["exhaustive_scope"] = "hot tier of 2 shards x 2 replicas: all 5^4 assignments of {ok, error, wants-old, too-many-fractions, too-many-uniq} x cold tier {none, ok, error, wants-old}"
 	for i := 0; i < nSearch; i++ {
 		scripts = append(scripts, genSearch(r.Fork()))
+	}
+	for i := 0; i < nSeq; i++ {
+		scripts = append(scripts, genSeq(r.Fork()))
 	}
 	for i := 0; i < nFetch; i++ {
 		scripts = append(scripts, genFetch(r.Fork()))
@@ -1467,7 +1587,9 @@ func doReplay(w *casefile.Writer, path string) {
 	if err := json.Unmarshal(raw, &sc); err != nil {
 		panic(err)
 	}
-	o := execute(&sc)
-	fmt.Printf("replay: panic=%q hung=%v result=%v\n", o.panicked, o.hung, implJSON(o))
-	record(w, &sc, o)
+	outs := execute(&sc)
+	for k, o := range outs {
+		fmt.Printf("replay: search %d: panic=%q hung=%v result=%v\n", k, o.panicked, o.hung, implJSON(o))
+	}
+	recordAll(w, &sc, outs)
 }
